@@ -411,6 +411,52 @@ def run(chk: Check) -> int:
         if rec.steps:
             add(cfg, rec, orc, f"seed{chk.seed}/neginf{k}", mode)
 
+    # stress stream (oracle on every run, correspondence on a selection): small max_ivals, integrands that
+    # refinement does not resolve (forced splits everywhere), one request per free task and one value at a time with
+    # occasional bursts -- the forced-split queue holds several intervals when a split overflows max_ivals, so the
+    # max_ivals rule evicts intervals that are still queued
+    nstress = 200 if chk.quick else 1000
+    stress = {"runs": 0, "runs_evicting_a_queued_interval": 0, "evictions_of_queued_intervals": 0, "failing": 0, "tells": 0}
+    cand = []
+    for k in range(nstress):
+        rng = chk.rng("stress", k)
+        cfg = I.draw_config(rng, "wiggly" if rng.random() < 0.85 else rng.choice(["noisy", "isolated_dev", "step"]))
+        cfg["max_ivals"] = rng.choice([3, 4, 4, 5, 5, 6, 8])
+        cfg["tol"] = 1e-12
+        kw = dict(mode="trickle", max_tells=700, max_ops=2100, foreign_rate=0.004,
+                  ntasks=rng.choice([4, 4, 8, 16]), burst=rng.choice([0.0, 0.1, 0.15, 0.2, 0.4]))
+        try:
+            rec, orc = drive(cfg, rng=rng, **kw)
+        except I.InstrumentationError as e:
+            instr_broken.append((f"stress{k}", str(e)))
+            continue
+        stress["runs"] += 1
+        stress["tells"] += sum(1 for st in rec.steps if st["op"][0] == "tell")
+        if rec.evict_queued:
+            stress["runs_evicting_a_queued_interval"] += 1
+            stress["evictions_of_queued_intervals"] += len(rec.evict_queued)
+        for kk in orc_checked:
+            orc_checked[kk] += orc.checked[kk]
+        chk.note_case(("stress", k, cfg["params"], cfg["bounds"]), bool(rec.evict_queued))
+        if orc.errors:
+            stress["failing"] += 1
+            sig, msg = orc.errors[0]
+            if sig not in first_fail:
+                first_fail[sig] = (cfg, I.concrete_ops(rec), msg)
+                if len(rec.steps) <= 900:
+                    add(cfg, rec, orc, f"seed{chk.seed}/stress{k}", "trickle")
+        elif rec.evict_queued:
+            cand.append((rec.evict_queued[0], k, cfg, I.concrete_ops(rec)))
+    # correspondence on the runs that evict a queued interval earliest (prefix up to 40 operations after the eviction)
+    for first, k, cfg, ops in sorted(cand, key=lambda c: c[:2])[:(4 if chk.quick else 20)]:
+        rec, orc = drive(cfg, ops=ops[:first + 40])
+        add(cfg, rec, orc, f"seed{chk.seed}/stress{k}[:{first + 40}]", "trickle")
+    if instr_broken:
+        chk.broke("correspondence", "run-time instrumentation of IntegratorLearner no longer fits the code "
+                  f"({len(instr_broken)} cases)", instr_broken[:3])
+        instr_broken.clear()
+    chk.extra["stress_stream"] = stress
+
     repaired = not f1_seen
     chk.log(f"real code corresponds to the model with repaired={repaired} (F1 paths reproduced: {sorted(f1_seen) or 'none'})")
     for sig, (cfg, ops, msg) in first_fail.items():
